@@ -56,6 +56,8 @@ def _reads_in_engine(repo, names: set[str]) -> set[str]:
 
 def run(chk) -> None:
     repo = chk.repo
+    from ._engine import engine_view
+    chk.extra["helpers_inlined"] = engine_view(repo)
     ms = repo.module(STATE)
     mct = repo.module(CT)
     mres = repo.module("workflows.runtime.types.results")
